@@ -352,7 +352,7 @@ variable (n : ℕ) (Mm : ℕ → ℕ → K) (q d : ℕ → K)
 theorem init_get (i j : ℕ) (hi : i < n) (hj : j < 2 * n + 2) :
     (initTableau n Mm q d).get i j =
       if j < n then (if j = i then 1 else 0)
-      else if j < 2 * n then - Mm i (j - n)
+      else if j < 2 * n then 0 - Mm i (j - n)
       else if j = 2 * n then - d i
       else q i := by
   unfold initTableau
